@@ -49,7 +49,7 @@ func init() {
 		"Receive/Yield only after activation and Transition(true) only after an owner active=true, unknown modules answered "+
 		"active=false, devmod descriptors and module list complete at the owner, Done sent and accepted iff the last owner "+
 		"module reported completion (exactly one IsDone, in the last answer, exactly one Done), no panic, no hang (watchdog). "+
-		"distinct = distinct (configuration, scripts, MTU pair); trivial = no owner module and at most one 68 message", c16)
+		"a device-supplied devmod module swept through every remainder of the first message; distinct = distinct (configuration, scripts, MTU pair); trivial = no owner module and at most one 68 message", c16)
 }
 
 // ---------- cases ----------
